@@ -88,6 +88,12 @@ class PeerWorld(World):
         conn.buf[self.ridx] += bytes(data)
         return True
 
+    def peer_reset(self):
+        '''The peer vanishes abortively (RST): R's next read fails with ECONNRESET, later ones see the end of the stream.'''
+        conn = self.conns[0]
+        conn.reset[self.ridx] = True
+        conn.closed[1 - self.ridx] = True
+
     def peer_close(self):
         conn = self.conns[0]
         conn.closed[1 - self.ridx] = True
